@@ -195,7 +195,8 @@ def run(cx):
             cx.must_pass('C19.F1', pf, handed, via_blocks={x.bb for x in ss}, what=f'{sec}-filtered-before-the-response-is-handed-back')
     rc_ = cx.fn('C19.F1', '<hickory_resolver::name_server_pool::NameServerPool<P> as hickory_net::xfer::dns_handle::DnsHandle>::send::{closure@once#0}::{closure@retain#0}')
     if rc_:
-        DEN = r'AccessControlSet::denied\(\^\^arg1\.state\.cx\.answer_address_filter,phi\(into<IpAddr>\(arg2\.data@AAAA\.0\.0\)\|into<IpAddr>\(arg2\.data@A\.0\.0\)\)\)'
+        # (the address is taken from the record's A / AAAA data, directly or through an Option-returning selector)
+        DEN = r'AccessControlSet::denied\(\^\^arg1\.state\.cx\.answer_address_filter,phi\((?:Option::None\|)?(?:Option::Some\()?into<IpAddr>\(arg2\.data@A{1,4}\.0\.0\)\)?\|(?:Option::Some\()?into<IpAddr>\(arg2\.data@A{1,4}\.0\.0\)\)?\)(?:@Some\.0)?\)'
         tr = [s for s in cx.true_returns(rc_) if not cx.has_guard(s, r'^in\(arg2\.data,(?!.*\bA\b)(?!.*\bAAAA\b)')]
         cx.guard('C19.F1', tr, {'address-record-kept-only-if-not-denied': '^!' + DEN + '$'}, expect=1, fn=rc_)
 
